@@ -266,8 +266,8 @@ def make_games(ctx, harness, driver, n_games, n_bound_prefix):
     r = ctx.rng
     gl, styles = [], []
     for _ in range(n_games):
-        st = r.choice([0, 0, 1, 1, 1, 2, 2, 3, 3, 3, 6, 7])     # bit 0 promotion-, bit 1 castling/e.p.-seeking, bit 2 stop at an e.p. right
-        plies = r.randrange(1, 151)
+        st = r.choice([0, 0, 1, 1, 1, 2, 2, 3, 3, 3, 6, 7, 8, 8, 8, 9, 10])     # bit 0 promotion-, bit 1 castling/e.p.-seeking, bit 2 stop at an e.p. right, bit 3 pawn-capture seeking
+        plies = r.randrange(1, 151) if not (st & 8) or r.random() < 0.3 else r.randrange(4, 31)   # pawn-structure games mostly short: the pawn rules bite while many pawns are near home
         gl.append(f"pg gengame {r.getrandbits(48)} {plies} {MIN_MEN} {st}"); styles.append(st)
     out = run_chunks(harness, gl, JOBS, chunk=50)
     games, scan = [], []
